@@ -160,6 +160,7 @@ class Rxn:
         self.formula = None        # phases
         self.bad = None
         self.kind = "aq"
+        self.gmodel = None         # which activity-coefficient identifier came last: wateq | llnl | llnl_co2 | activity_water | None (default)
         self.line = 0
 
 
@@ -345,11 +346,16 @@ class DB:
         if self._apply_common(cur, ident, rest, ln):
             return cur
         if ident == "gamma":
-            cur.gamma = (to_float(rest[0]), to_float(rest[1]) if len(rest) > 1 else 0.0)
+            cur.gamma = (to_float(rest[0]), (to_float(rest[1]) or 0.0) if len(rest) > 1 else 0.0)
+            cur.gmodel = "wateq"
         elif ident == "llnl_gamma":
             cur.llnl_gamma = to_float(rest[0])
+            cur.gmodel = "llnl"
         elif ident == "co2_llnl_gamma":
             cur.co2_llnl_gamma = True
+            cur.gmodel = "llnl_co2"
+        elif ident == "activity_water":
+            cur.gmodel = "activity_water"
         elif ident == "no_check":
             cur.no_check = True
         elif ident == "check":
